@@ -30,13 +30,19 @@ def shards(tier):
     return [{'examples': per, 'i': i} for i in range(n)]
 
 
-def mk_type(kind, exprs, tags=(), bare=False):
+def mk_type(kind, exprs, tags=(), bare=False, root_class=False):
     """Constrained pyasn1 type derived step by step: exprs = list of constraint trees (a derivation chain).
     bare: the constraint object is handed to subtype() as it is (the common spelling), otherwise wrapped in an intersection."""
     T = ir.mk(kind)
     obj = build.schema(T)
     chain = [obj]
     for i, c in enumerate(exprs):
+        if i == 0 and root_class and not (i < len(tags) and tags[i] is not None):
+            # the first constraint as a class attribute of a subclass, exactly as drawn (possibly a union or an exclusion at the
+            # top): further links must still narrow it
+            obj = type(obj.__class__.__name__ + 'C', (obj.__class__,), {'subtypeSpec': cons.build(c, kind)})()
+            chain.append(obj)
+            continue
         kw = {'subtypeSpec': cons.build(c, kind) if bare else constraint.ConstraintsIntersection(cons.build(c, kind))}
         if i < len(tags) and tags[i] is not None:
             kw['explicitTag'] = ptag.Tag(ptag.tagClassContext, ptag.tagFormatConstructed, tags[i])
@@ -89,7 +95,7 @@ def run_case(case):
     if case['what'] == 'scalar':
         exprs = case['exprs']
         try:
-            chain = mk_type(kind, exprs, case.get('tags', ()), case.get('bare', False))
+            chain = mk_type(kind, exprs, case.get('tags', ()), case.get('bare', False), case.get('root_class', False))
         except error.PyAsn1Error as e:
             F('build', 'raises', 'building the constrained type raised %s: %s | %s' % (harness.exc_sig(e), str(e)[:100], ir.jdump(exprs)[:200]), harness.exc_sig(e))
             return fails
@@ -370,7 +376,7 @@ def run_shard(desc, seed, tier, col):
             else:
                 cands += ['']
             return {'what': 'scalar', 'kind': kind, 'exprs': exprs, 'tags': tags, 'cands': cands, 'operands': [d.int(-300, 300), d.pick([2, 7, 128, -129])],
-                    'bare': d.pct(50)}
+                    'bare': d.pct(50), 'root_class': d.pct(25)}
         if r < 9:
             kind = d.pick(['SEQUENCEOF', 'SETOF'])
             c = cons.draw_expr(d, kind, d.pick([1, 2, 3]))
